@@ -115,6 +115,10 @@ pub struct OrderSpec {
     pub lastref: u64,
     pub offset: i64,
     pub peg: u8,
+    /// the order's own price field when it differs from the level's (`add_order` accepts any order;
+    /// e.g. an order handed back by a price move and re-added elsewhere unchanged)
+    #[serde(default)]
+    pub own_price: Option<u64>,
 }
 
 pub fn peg_of(p: u8) -> PegReferenceType {
@@ -142,6 +146,7 @@ impl OrderSpec {
         }
     }
     pub fn build(&self, id: OrderId, price: u64) -> OrderType<()> {
+        let price = self.own_price.unwrap_or(price);
         let side = self.side();
         let time_in_force = self.tif.build();
         let timestamp = self.ts;
